@@ -17,7 +17,7 @@ func init() {
 	Register(&Def{
 		Prop: "C02", Name: "media", Level: "exploration",
 		Build:        buildC02Media,
-		Cfg:          sim.RunConfig{Grace: time.Minute, Horizon: time.Hour, StepCap: 60000},
+		Cfg:          sim.RunConfig{Grace: time.Minute, Horizon: time.Hour, StepCap: 400000},
 		RunsQuick:    16000,
 		RunsThorough: 800000,
 		Real: []string{"media/cache H264Cache, HevcCache, FlvCache (CachePack, PushTo)", "media.Stream.startConsume / WriteRtpPacket / WriteFlvTag",
@@ -30,7 +30,7 @@ func init() {
 			"parameter-set NAL units are sent before the key frame of their GOP (as encoders do); audio/RTCP packets are not required in the replayed part",
 			"for FLV joiners the cut is observed through the hit counter of the schedule point inside WriteFlvTag",
 		},
-		RequiredProbes: []string{"c02.join-with-gop", "c02.join-racing-publish"},
+		RequiredProbes: []string{"c02.join-with-gop", "c02.join-racing-publish", "c02.gop-over-1000-packets"},
 	})
 }
 
@@ -72,6 +72,12 @@ func buildC02Media(tier string) sim.Scenario {
 		withAudio := codec == oracle.H264 && tp.Bool()
 		nGop := 1 + tp.Choose(3)
 		mtu := []int{1400, 200, 60, 30}[tp.Choose(4)]
+		// one GOP of more than a thousand packets (a long key-frame interval at a high bit rate): the replay is the whole of it
+		longGop := cacheGop && tp.OneIn(24)
+		if longGop {
+			nGop, mtu, withAudio = 1, 1400, false
+			w.Probe("c02.gop-over-1000-packets")
+		}
 		// frames
 		var aus []oracle.AU
 		ts := uint32(90000)
@@ -110,6 +116,9 @@ func buildC02Media(tier string) sim.Scenario {
 			aus = append(aus, oracle.AU{NALs: nals, TS: ts})
 			ts += 3000
 			nP := tp.Choose(6)
+			if longGop {
+				nP = 1020 + tp.Choose(400)
+			}
 			for k := 0; k < nP; k++ {
 				aus = append(aus, oracle.AU{NALs: [][]byte{oracle.MakeNAL(codec, 1, id, 5+tp.Choose(120))}, TS: ts})
 				id++
